@@ -64,6 +64,8 @@ def translate(ctx: C.Ctx) -> List[str]:
 def gen_objects(seed: int, n: int, tier: str, falsy_bias: float = 0.35):
     """n (index, object) pairs: identifiables of every kind; deterministic in (seed, index)."""
     out = []
+    zoo, zstats = _make(seed, -1, 3, falsy_bias)
+    out.append((-1, zoo, zstats))          # the deterministic zoo of leaf values: on every run, whatever the seed
     for i in range(n):
         obj, stats = _make(seed, i, 3 if tier == "quick" else 4, falsy_bias)
         out.append((i, obj, stats))
@@ -74,6 +76,8 @@ def _make(seed: int, i: int, depth: int, falsy_bias: float):
     """object #i: identifiables (i%5 in 0..2) and bare submodel elements of every class as roots (i%5 in 3..4)"""
     from vf import gen, meta
     g = gen.Gen(random.Random(f"C03obj:{seed}:{i}"), max_depth=depth, falsy_bias=falsy_bias)
+    if i == -1:
+        return g.zoo_submodel(), g.stats
     kind = i % 5
     if kind == 0:
         obj = g.submodel()
@@ -192,6 +196,9 @@ def sig_of(diff: str, fmt: str = "json", root=None) -> str:
     return f"{fmt}:roundtrip:{'.'.join(attrs[-2:])}:{lost}"
 
 
+CARRIERS = ("text", "binary", "path", "tmp-text", "tmp-binary", "spooled-text", "codecs")
+
+
 def roundtrip_store(store, how: str):
     from basyx.aas.adapter.json import write_aas_json_file, read_aas_json_file
     if how == "text":
@@ -200,6 +207,26 @@ def roundtrip_store(store, how: str):
     if how == "binary":
         buf = io.BytesIO(); write_aas_json_file(buf, store); buf.seek(0)
         return read_aas_json_file(buf, failsafe=False)
+    if how in ("tmp-text", "tmp-binary", "spooled-text", "codecs"):
+        # other legitimate file objects: temporary files (text and binary mode), a spooled file, a codecs stream
+        import codecs
+        d = tempfile.mkdtemp(prefix="verif-c03-")
+        try:
+            if how == "tmp-text":
+                f = tempfile.NamedTemporaryFile("w+", encoding="utf-8", dir=d)
+            elif how == "tmp-binary":
+                f = tempfile.NamedTemporaryFile("w+b", dir=d)
+            elif how == "spooled-text":
+                f = tempfile.SpooledTemporaryFile(mode="w+", encoding="utf-8", dir=d)
+            else:
+                f = codecs.open(os.path.join(d, "c.json"), "w+", encoding="utf-8")
+            with f:
+                write_aas_json_file(f, store)
+                f.seek(0)
+                return read_aas_json_file(f, failsafe=False)
+        finally:
+            import shutil
+            shutil.rmtree(d, ignore_errors=True)
     d = tempfile.mkdtemp(prefix="verif-c03-")
     try:
         p = os.path.join(d, "x.json")
@@ -309,7 +336,7 @@ def oracle(ctx: C.Ctx, cov: C.Coverage, falsy_bias: float = 0.35, n: Optional[in
     seed = ctx.seed if seed is None else seed
     depth = 3 if ctx.tier == "quick" else 4
     for i, obj, _ in gen_objects(seed, n or ctx.budget(240, 6000), ctx.tier, falsy_bias):
-        f = check_object(obj, {"seed": seed, "index": i, "depth": depth, "falsy_bias": falsy_bias}, ("text", "binary", "path")[i % 3])
+        f = check_object(obj, {"seed": seed, "index": i, "depth": depth, "falsy_bias": falsy_bias}, CARRIERS[i % len(CARRIERS)])
         if f and f.sig not in sigs:
             sigs.add(f.sig); out.append(f)
     return out
@@ -333,7 +360,7 @@ def search(ctx: C.Ctx, disagreements, broken) -> List[C.Failing]:
 
 def replay(case) -> Optional[C.Failing]:
     obj = regen(case)
-    for how in ("text", "binary", "path"):
+    for how in CARRIERS:
         f = check_object(obj, case, how)
         if f:
             return f
